@@ -510,16 +510,31 @@ def gen_vleh_case(rng, mode='stub'):
     if mode == 'real' and rng.random() < 0.6:
         sk, spec = 'TP', {'T': rng.choice([355., 360., 365., 350.]), 'P': 101325.}
     ops.append(['vle', sk, spec])
+    if mode == 'real' and rng.random() < 0.5:
+        ops += [['reload', rng.choice('llg')], ['vle', sk, spec]]              # what a unit does on every pass: reload the feed, flash again
     for _ in range(rng.randint(1, 3)):
         r = rng.random()
-        if r < 0.35: ops.append(['redist', [1.] * n])                       # everything re-loaded as liquid
-        elif r < 0.5: ops.append(['redist', [0.] * n])                      # ... as gas
+        if r < 0.2: ops.append(['redist', [1.] * n])                        # everything moved to the liquid
+        elif r < 0.3: ops.append(['redist', [0.] * n])                      # ... to the gas
+        elif r < 0.55: ops.append(['reload', rng.choice('llg')])            # the original feed re-loaded into one phase (bit-identical totals)
         else: ops.append(['redist', [rng.choice([0., 0.25, 0.5, 0.75, 1.]) for _ in range(n)]])
         if rng.random() < 0.5: ops.append(['vle', sk, spec])                # the same call again
         else: ops.append(['vle'] + list(one_spec()))
     return {'kind': 'vleh', 'mode': mode, 'phases': base['phases'], 'l': base['l'], 'g': base['g'], 's': base['s'],
             'T0': base['T0'], 'P0': base['P0'], 'co': base['co'], 'draws': base['draws'] or [rng.random() for _ in range(8)],
             'ops': ops, 'spec': {}, 'sk': 'TP'}
+
+def apply_outside_op(case, s, op):
+    """what happens to the stream between two calls; returns False for a 'vle' op"""
+    if op[0] == 'redist':
+        l = np.array(fl(s.imol['l'].to_array())); g = np.array(fl(s.imol['g'].to_array())); tot = l + g
+        newl = tot * np.array(op[1]); s.imol['l'] = newl; s.imol['g'] = tot - newl
+        return True
+    if op[0] == 'reload':
+        tot = np.array(case['l'], float) + np.array(case['g'], float)
+        s.imol['l' if op[1] == 'l' else 'g'] = tot; s.imol['g' if op[1] == 'l' else 'l'] = 0. * tot
+        return True
+    return False
 
 def run_vleh(case):
     s = build_stream(case)
@@ -529,11 +544,7 @@ def run_vleh(case):
     calls = []
     try:
         for op in case['ops']:
-            if op[0] == 'redist':
-                l = np.array(fl(s.imol['l'].to_array())); g = np.array(fl(s.imol['g'].to_array()))
-                tot = l + g
-                newl = tot * np.array(op[1]); s.imol['l'] = newl; s.imol['g'] = tot - newl
-                continue
+            if apply_outside_op(case, s, op): continue
             sk = op[1]
             c1 = dict(case, sk=sk, spec=op[2])
             spec = resolve_spec(c1, s)
@@ -564,10 +575,7 @@ def oracle_vleh(case):
     """the history on the real code with the real solvers: after every call conservation, non-negativity, placement"""
     s = build_stream(case)
     for op in case['ops']:
-        if op[0] == 'redist':
-            l = np.array(fl(s.imol['l'].to_array())); g = np.array(fl(s.imol['g'].to_array())); tot = l + g
-            newl = tot * np.array(op[1]); s.imol['l'] = newl; s.imol['g'] = tot - newl
-            continue
+        if apply_outside_op(case, s, op): continue
         sk = op[1]
         c1 = dict(case, sk=sk, spec=op[2])
         spec = resolve_spec(c1, s)
